@@ -92,7 +92,10 @@ PROPS = {
         level="model_checking",
         rule="events = encrypt calls under the RNG hook (k observed or scripted), decrypt calls on library-made and spec-made ciphertexts, kdf calls; "
              "distinct = distinct (key, k, message, format); non-trivial = all",
-        models=[dict(module="AnchorSM2", anchor=True, workers=1, about="SM2.tla reproduces the GM/T 0003.5 Annex values"),
+        models=[dict(module="MC_KDF", workers=2, about="L1 model of the kdf loop (bound = ceil(klen/V), bound-1 blocks, last block whole or klen%V bytes) = the first klen bytes of H(Z||1)||H(Z||2)||... for every klen 1..40 (abstract 4-byte hash)"),
+                dict(module="MC_KDF", cfg="MC_KDF_plus1", expect="violation", workers=2, about="negative: bound = klen/V + 1 must be refuted"),
+                dict(module="MC_KDF", cfg="MC_KDF_droplast", expect="violation", workers=2, about="negative: last block skipped when klen%V = 0 must be refuted"),
+                dict(module="AnchorSM2", anchor=True, workers=1, about="SM2.tla reproduces the GM/T 0003.5 Annex values"),
                 dict(module="MC_SM2Enc", cfg="MC_SM2Enc_q_none", tier="quick", about="toy curve F_11, symbols 0..11: every key, nonce, message, order, encoding round-trips; code-shaped decryptor = declarative decryptor on EVERY symbol string of ciphertext length"),
                 dict(module="MC_SM2Enc", cfg="MC_SM2Enc_none", tier="thorough", timeout=900, about="same with symbols 0..15 (5.5 M states)")],
         stages=[dict(suite="sm2enc", trace="TraceSM2", plan=dict(module="PlanSM2Enc", cfg_quick="PlanSM2Enc_q", cfg_thorough="PlanSM2Enc_t"),
@@ -143,7 +146,10 @@ PROPS = {
         level="model_checking",
         rule="events = encoders (all forms of a key), decoders on canonical / malformed / OpenSSL-made input, ASN.1 ciphertext encoders/decoders with searched ephemeral scalars; "
              "distinct = distinct (operation, input bytes); non-trivial = all",
-        models=[dict(module="AnchorSM2Codec", anchor=True, about="SM2Codec.tla reproduces the OpenSSL-made SPKI/PKCS#8 DER+PEM and decodes/re-encodes/decrypts the 18 OpenSSL GM/T 0009 ciphertexts")],
+        models=[dict(module="MC_DerInt", workers=2, about="L1 model of the DER INTEGER shaping of C1.x / C1.y (minimal digits + sign digit; decoder strips, bounds, LEFT-pads) = the fixed-width coordinate, for every value at toy width (base 4, 4 digits); over-long INTEGERs rejected"),
+                dict(module="MC_DerInt", cfg="MC_DerInt_rightpad", expect="violation", workers=2, about="negative: padding appended on the right must be refuted"),
+                dict(module="MC_DerInt", cfg="MC_DerInt_onezero", expect="violation", workers=2, about="negative: restoring at most one dropped zero digit must be refuted"),
+                dict(module="AnchorSM2Codec", anchor=True, about="SM2Codec.tla reproduces the OpenSSL-made SPKI/PKCS#8 DER+PEM and decodes/re-encodes/decrypts the 18 OpenSSL GM/T 0009 ciphertexts")],
         stages=[dict(suite="sm2codec", trace="TraceSM2",
                      required_classes={"both": ["codec.encode/encode.plain", "codec.decode/decode.pk_bytes.roundtrip", "codec.decode/decode.spki_pem.openssl", "codec.decode/decode.pkcs8_pem.openssl",
                                                 "codec.decode/decode.pk_bytes.off-curve", "codec.asn1_enc/asn1.enc.x-lead0x1", "codec.asn1_enc/asn1.enc.y-lead0x1", "codec.asn1_enc/asn1.enc.x-lead0x2", "codec.asn1_enc/asn1.enc.y-lead0x2", "codec.asn1_dec/asn1.dec.openssl"]})],
@@ -198,7 +204,10 @@ PROPS = {
     "C10": dict(
         level="model_checking",
         rule="events = encrypt calls under the RNG hook, decrypt calls on library-made / spec-made ciphertexts and enumerated faults; distinct = distinct inputs; non-trivial = all",
-        models=[dict(module="AnchorSM9q", anchor=True, workers=1, tier="quick", about="SM9.tla reproduces the GM/T 0044.5 Annex extraction / signature / ciphertext values via the derived evaluator; G0 has order N"), dict(module="AnchorSM9", anchor=True, workers=1, tier="thorough", timeout=900, about="all GM/T 0044.5 Annex values incl. the definitional pairings, decryption and key exchange; G0Const = Pairing(P1,P2)"),
+        models=[dict(module="MC_KDF", workers=2, about="L1 model of the kdf loop (bound = ceil(klen/V), bound-1 blocks, last block whole or klen%V bytes) = the first klen bytes of H(Z||1)||H(Z||2)||... for every klen 1..40 (abstract 4-byte hash)"),
+                dict(module="MC_KDF", cfg="MC_KDF_plus1", expect="violation", workers=2, about="negative: bound = klen/V + 1 must be refuted"),
+                dict(module="MC_KDF", cfg="MC_KDF_droplast", expect="violation", workers=2, about="negative: last block skipped when klen%V = 0 must be refuted"),
+                dict(module="AnchorSM9q", anchor=True, workers=1, tier="quick", about="SM9.tla reproduces the GM/T 0044.5 Annex extraction / signature / ciphertext values via the derived evaluator; G0 has order N"), dict(module="AnchorSM9", anchor=True, workers=1, tier="thorough", timeout=900, about="all GM/T 0044.5 Annex values incl. the definitional pairings, decryption and key exchange; G0Const = Pairing(P1,P2)"),
                 dict(module="MC_SM9Proto", cfg="MC_SM9Proto_enc", about="exponent model Z_7: all ke, H1 tables, r, messages: round trip; every replaced C1 (any value or off-curve) / C2 / C3 is rejected"),
                 dict(module="MC_SM9Proto", cfg="MC_SM9Proto_enc_nomac", expect="violation", about="negative: decryption without the C3 comparison must be refuted"),
                 dict(module="MC_SM9Proto", cfg="MC_SM9Proto_enc_nocurve", expect="violation", about="negative: decryption without the on-curve check of C1 must be refuted")],
@@ -210,7 +219,10 @@ PROPS = {
     "C17": dict(
         level="model_checking",
         rule="sessions = key exchange runs; every step judged from its logged inputs; distinct = distinct (master key, ids, klen, ephemerals, tamper); non-trivial = all",
-        models=[dict(module="AnchorSM9q", anchor=True, workers=1, tier="quick", about="SM9.tla reproduces the GM/T 0044.5 Annex extraction / signature / ciphertext values via the derived evaluator; G0 has order N"), dict(module="AnchorSM9", anchor=True, workers=1, tier="thorough", timeout=900, about="all GM/T 0044.5 Annex values incl. the definitional pairings, decryption and key exchange; G0Const = Pairing(P1,P2)"),
+        models=[dict(module="MC_KDF", workers=2, about="L1 model of the kdf loop (bound = ceil(klen/V), bound-1 blocks, last block whole or klen%V bytes) = the first klen bytes of H(Z||1)||H(Z||2)||... for every klen 1..40 (abstract 4-byte hash)"),
+                dict(module="MC_KDF", cfg="MC_KDF_plus1", expect="violation", workers=2, about="negative: bound = klen/V + 1 must be refuted"),
+                dict(module="MC_KDF", cfg="MC_KDF_droplast", expect="violation", workers=2, about="negative: last block skipped when klen%V = 0 must be refuted"),
+                dict(module="AnchorSM9q", anchor=True, workers=1, tier="quick", about="SM9.tla reproduces the GM/T 0044.5 Annex extraction / signature / ciphertext values via the derived evaluator; G0 has order N"), dict(module="AnchorSM9", anchor=True, workers=1, tier="thorough", timeout=900, about="all GM/T 0044.5 Annex values incl. the definitional pairings, decryption and key exchange; G0Const = Pairing(P1,P2)"),
                 dict(module="MC_SM9Proto", cfg="MC_SM9Proto_kex", about="exponent model Z_7: all ke, H1 tables, rA, rB and every replacement of R_A / R_B: untampered => same key; replaced R => keys differ; off-curve R => receiver fails (702 000 states)"),
                 dict(module="MC_SM9Proto", cfg="MC_SM9Proto_kex_nocurve", expect="violation", about="negative: a receiver that skips the on-curve check must be refuted")],
         stages=[dict(suite="sm9kex", trace="TraceSM9", timeout=3400,
